@@ -15,6 +15,7 @@ import DeapModel.Lemmas.C13Weights
 import DeapModel.Lemmas.C13Sort
 import DeapModel.Lemmas.C13Psd
 import DeapModel.Lemmas.C13Init
+import DeapModel.Lemmas.C13Spectral
 import Mathlib.Tactic.FinCases
 import Mathlib.Tactic.NormNum
 
@@ -40,19 +41,46 @@ noncomputable def exPop : List (Int × List ℝ) := [(3, [1, 0]), (7, [0, 1]), (
 
 /-! ### 1. The code form of `update` is the published form -/
 
-/-- **update_eq_spec.**  For a state with `σ ≠ 0`, `chiN > 0` and recombination weights summing to one,
-the values computed by cma.py:135-165 (`updateCore`: centroid, p_σ, h_σ, p_c, C, σ) are exactly those of
-the published (μ/μ_w, λ)-CMA-ES equations (`updateSpec`, spelled out by `spec_*` below). -/
-theorem update_eq_spec (s : State ℝ) (xs : List (List ℝ)) (hσ : s.sigma ≠ 0) (hchi : 0 < s.chiN)
+/-- **The guard.**  Every division `update` performs is by a non-zero number exactly under these conditions;
+outside them numpy produces `inf`/`nan` (e.g. user-supplied `cs = 0` or `cs = 2` makes the `h_σ` denominator
+`√(1 - (1-cs)^(2(g+1)))` zero) while division in ℝ is totalised (`x / 0 = 0`), so the theorems about the
+published equations are stated under this guard only. -/
+structure WellPosed (s : State ℝ) : Prop where
+  sigma_pos : 0 < s.sigma
+  chiN_pos : 0 < s.chiN
+  cs_pos : 0 < s.par.cs
+  cs_lt : s.par.cs < 2
+  damps_ne : s.par.damps ≠ 0
+  diagD_pos : ∀ k : Fin s.dim, 0 < vget s.diagD k.val
+
+/-- under the guard no denominator of cma.py:141-165 vanishes -/
+theorem no_zero_division (s : State ℝ) (h : WellPosed s) :
+    s.sigma ≠ 0 ∧ s.sigma ^ 2 ≠ 0 ∧ (∀ k : Fin s.dim, vget s.diagD k.val ≠ 0) ∧
+    0 < √(1 - (1 - s.par.cs) ^ (2 * (s.updateCount + 1))) ∧ s.chiN ≠ 0 ∧ s.par.damps ≠ 0 := by
+  refine ⟨h.sigma_pos.ne', pow_ne_zero 2 h.sigma_pos.ne', fun k => (h.diagD_pos k).ne', ?_, h.chiN_pos.ne',
+    h.damps_ne⟩
+  apply Real.sqrt_pos.mpr
+  have h0 : 0 ≤ (1 - s.par.cs) ^ 2 := sq_nonneg _
+  have h1 : (1 - s.par.cs) ^ 2 < 1 := by nlinarith [h.cs_pos, h.cs_lt]
+  have : ((1 - s.par.cs) ^ 2) ^ (s.updateCount + 1) < 1 := pow_lt_one₀ h0 h1 (Nat.succ_ne_zero _)
+  rw [← pow_mul] at this
+  linarith
+
+/-- **update_eq_spec.**  For a well-posed state whose recombination weights sum to one, the values computed by
+cma.py:135-165 (`updateCore`: centroid, p_σ, h_σ, p_c, C, σ) are exactly those of the published
+(μ/μ_w, λ)-CMA-ES equations (`updateSpec`, spelled out by `spec_*` below). -/
+theorem update_eq_spec (s : State ℝ) (xs : List (List ℝ)) (hwp : WellPosed s)
     (hw : ∑ i : Fin s.par.mu, vget s.par.weights i.val = 1) :
     updateCore s xs = updateSpec s xs :=
-  updateCore_eq_spec s xs hσ hchi hw
+  updateCore_eq_spec s xs hwp.sigma_pos.ne' hwp.chiN_pos hw
 
-example : exState.sigma ≠ 0 ∧ 0 < exState.chiN ∧
-    ∑ i : Fin exState.par.mu, vget exState.par.weights i.val = 1 := by
-  refine ⟨by norm_num [exState], by norm_num [exState], ?_⟩
-  show ∑ i : Fin 2, vget [(3 / 4 : ℝ), 1 / 4] i.val = 1
-  norm_num [Fin.sum_univ_two, vget]
+example : WellPosed exState ∧ ∑ i : Fin exState.par.mu, vget exState.par.weights i.val = 1 := by
+  refine ⟨⟨by norm_num [exState], by norm_num [exState], by norm_num [exState], by norm_num [exState],
+    by norm_num [exState], ?_⟩, ?_⟩
+  · show ∀ k : Fin 2, 0 < vget [(1 : ℝ), 2] k.val
+    intro k; fin_cases k <;> norm_num [vget]
+  · show ∑ i : Fin 2, vget [(3 / 4 : ℝ), 1 / 4] i.val = 1
+    norm_num [Fin.sum_univ_two, vget]
 
 /-- `update` stores exactly what `updateCore` computes on the `mu` best individuals, increments
 `update_count`, and leaves the parameters alone (cma.py:133-174). -/
@@ -69,13 +97,13 @@ theorem update_fields {α K : Type} [RealLike α] [LT K] [DecidableLT K]
 /-- **update = published equations**, at the level of the strategy object. -/
 theorem update_eq_published {K : Type} [LT K] [DecidableLT K]
     (eigh : List (List ℝ) → List ℝ × List (List ℝ)) (argsort : List ℝ → List Nat)
-    (s : State ℝ) (pop : List (K × List ℝ)) (hσ : s.sigma ≠ 0) (hchi : 0 < s.chiN)
+    (s : State ℝ) (pop : List (K × List ℝ)) (hwp : WellPosed s)
     (hw : ∑ i : Fin s.par.mu, vget s.par.weights i.val = 1) :
     let s' := update eigh argsort s pop
     let r := updateSpec s (selectBest s.par.mu pop)
     s'.centroid = r.centroid ∧ s'.ps = r.ps ∧ s'.pc = r.pc ∧ s'.C = r.C ∧ s'.sigma = r.sigma := by
   intro s' r
-  have h := update_eq_spec s (selectBest s.par.mu pop) hσ hchi hw
+  have h := update_eq_spec s (selectBest s.par.mu pop) hwp hw
   exact ⟨congrArg Core.centroid h, congrArg Core.ps h, congrArg Core.pc h, congrArg Core.C h,
     congrArg Core.sigma h⟩
 
@@ -199,6 +227,45 @@ theorem order_independent {α K : Type} [RealLike α] [LinearOrder K]
 example : exPop.Perm exPop.reverse ∧ (exPop.map Prod.fst).Nodup := by
   refine ⟨(List.reverse_perm _).symm, ?_⟩
   simp [exPop]
+
+/-! #### … instantiated at the key the model and the driver really sort by
+
+`FitKey ℝ` = a fitness' weighted values under `lexLt` (`Fitness.__lt__`); `fitKeyLinearOrder` shows that this
+very `<` (instances `Cma.fitKeyLT` / `Cma.fitKeyDecLT`, named explicitly below) is a linear order. -/
+
+/-- **order_independent_fitness.**  `order_independent` for populations keyed by real fitness objects:
+pairwise distinct weighted-value tuples ⇒ the order of the evaluated individuals is irrelevant. -/
+theorem order_independent_fitness
+    (eigh : List (List ℝ) → List ℝ × List (List ℝ)) (argsort : List ℝ → List Nat)
+    (s : State ℝ) {p q : List (FitKey ℝ × List ℝ)} (h : p.Perm q)
+    (hd : (p.map (fun kv => kv.1.wvalues)).Nodup) :
+    @update ℝ _ (FitKey ℝ) Cma.fitKeyLT Cma.fitKeyDecLT eigh argsort s p
+      = @update ℝ _ (FitKey ℝ) Cma.fitKeyLT Cma.fitKeyDecLT eigh argsort s q := by
+  have hd' : (p.map Prod.fst).Nodup := by
+    have : p.map (fun kv => kv.1.wvalues) = (p.map Prod.fst).map FitKey.wvalues := by simp
+    rw [this] at hd
+    exact hd.of_map _
+  exact order_independent (K := FitKey ℝ) eigh argsort s h hd'
+
+example : [((⟨[3, 1]⟩ : FitKey ℝ), [(1 : ℝ), 0]), (⟨[3, 2]⟩, [0, 1]), (⟨[-1]⟩, [2, 2])].Perm
+      [((⟨[-1]⟩ : FitKey ℝ), [(2 : ℝ), 2]), (⟨[3, 1]⟩, [1, 0]), (⟨[3, 2]⟩, [0, 1])] ∧
+    ([((⟨[3, 1]⟩ : FitKey ℝ), [(1 : ℝ), 0]), (⟨[3, 2]⟩, [0, 1]), (⟨[-1]⟩, [2, 2])].map
+      (fun kv => kv.1.wvalues)).Nodup := by
+  refine ⟨?_, by norm_num⟩
+  exact List.perm_append_comm (l₁ := [_, _]) (l₂ := [_])
+
+/-- **sort_best_fitness.**  After the model's sort none of the discarded individuals is strictly better
+(`Fitness.__lt__`) than a selected one, and the result is a permutation of the population. -/
+theorem sort_best_fitness (pop : List (FitKey ℝ × List ℝ)) (mu : Nat) :
+    (@sortDesc (FitKey ℝ) (List ℝ) Cma.fitKeyLT Cma.fitKeyDecLT pop).Perm pop ∧
+    ∀ x ∈ (@sortDesc (FitKey ℝ) (List ℝ) Cma.fitKeyLT Cma.fitKeyDecLT pop).take mu,
+      ∀ y ∈ (@sortDesc (FitKey ℝ) (List ℝ) Cma.fitKeyLT Cma.fitKeyDecLT pop).drop mu,
+        lexLt x.1.wvalues y.1.wvalues = false := by
+  refine ⟨sortDesc_perm (K := FitKey ℝ) pop, ?_⟩
+  intro x hx y hy
+  have h := sortDesc_best (K := FitKey ℝ) pop mu x hx y hy
+  have : ¬ (x.1 < y.1) := not_lt.mpr h
+  exact Bool.eq_false_iff.mpr this
 
 /-! ### 4. Consistency of the stored state after an update -/
 
@@ -384,13 +451,37 @@ example : ({ cs := some (1 / 2), damps := some 2, ccum := some (1 / 3), ccov1 :=
 
 /-! ### 6. Sampling -/
 
-/-- **generate** returns one individual per row of the draw matrix (`lambda_` rows), each built by the
-given initialiser from a vector of the problem dimension. -/
-theorem generate_shape {I : Type} (s : State ℝ) (arz : List (List ℝ)) (indInit : List ℝ → I) :
-    generate s arz indInit = arz.map (fun z => indInit (samplePoint s z)) ∧
-    (generate s arz indInit).length = arz.length ∧
-    ∀ z, (samplePoint s z).length = s.dim := by
-  refine ⟨rfl, by simp only [generate, List.length_map], fun z => by simp only [samplePoint, length_tab]⟩
+/-- `generate` succeeds exactly when the tape still holds `lambda_ · dim` draws -/
+theorem generate_some_iff {α I : Type} [RealLike α] (s : State α) (tape : List α) (indInit : List α → I) :
+    (generate s tape indInit).isSome ↔ s.lambda_ * s.dim ≤ tape.length := by
+  simp only [generate, drawArz]
+  split_ifs with h <;> simp [h]
+
+/-- **generate_shape.**  `generate` returns exactly `lambda_` individuals and consumes exactly `lambda_ · dim`
+draws; individual `i` is the given initialiser applied to the sample point of the `i`-th block of `dim` draws,
+a vector of the problem dimension. -/
+theorem generate_shape {α I : Type} [RealLike α] (s : State α) (tape : List α) (indInit : List α → I)
+    (inds : List I) (rest : List α) (h : generate s tape indInit = some (inds, rest)) :
+    inds.length = s.lambda_ ∧ rest = tape.drop (s.lambda_ * s.dim) ∧
+    ∀ i (hi : i < inds.length),
+      let z := (tape.drop (i * s.dim)).take s.dim
+      z.length = s.dim ∧ (samplePoint s z).length = s.dim ∧ inds[i] = indInit (samplePoint s z) := by
+  simp only [generate, drawArz] at h
+  split_ifs at h with hlen
+  simp only [Option.some.injEq, Prod.mk.injEq] at h
+  obtain ⟨h1, h2⟩ := h
+  subst h1 h2
+  refine ⟨by simp, rfl, ?_⟩
+  intro i hi z
+  have hi' : i < s.lambda_ := by simpa using hi
+  refine ⟨?_, by simp only [samplePoint, length_tab], by simp [z]⟩
+  simp only [z, List.length_take, List.length_drop]
+  have : (i + 1) * s.dim ≤ s.lambda_ * s.dim := Nat.mul_le_mul_right _ hi'
+  have h3 : (i + 1) * s.dim = i * s.dim + s.dim := by ring
+  omega
+
+example : (generate exState [1, 2, 3, 4, 5, 6, 7, 8, 9] (fun x => x)).isSome := by
+  rw [generate_some_iff]; simp [exState]
 
 /-- **sample_affine.**  Each sampled point is the affine image `m + σ · BD z` of its standard-normal draw. -/
 theorem sample_affine (s : State ℝ) (z : List ℝ) (j : Fin s.dim) :
@@ -424,7 +515,8 @@ covariance matrix is positive semi-definite, and the update preserves that for l
 `0 ≤ c₁`, `0 ≤ c_μ`, `c₁ + c_μ ≤ 1` (this is what the `min` of cma.py:205 is for), `0 ≤ c_c ≤ 2` and
 non-negative weights — in particular for the documented defaults. -/
 
-/-- the sign conditions on the learning rates under which `C` stays positive semi-definite -/
+/-- the conditions on the learning rates under which `C` stays positive semi-definite and the step-size
+path is well defined (`0 < cs < 2`, `damps > 0`: no division by zero in `h_σ` and in the σ update) -/
 structure RatesOk (p : Params ℝ) : Prop where
   c1 : 0 ≤ p.ccov1
   cmu : 0 ≤ p.ccovmu
@@ -432,6 +524,9 @@ structure RatesOk (p : Params ℝ) : Prop where
   cc0 : 0 ≤ p.cc
   cc2 : p.cc ≤ 2
   w : ∀ i : Fin p.mu, 0 ≤ vget p.weights i.val
+  cs0 : 0 < p.cs
+  cs2 : p.cs < 2
+  damps : 0 < p.damps
 
 /-- what the next `update` relies on -/
 structure Pre (s : State ℝ) : Prop where
@@ -495,21 +590,38 @@ theorem history_consistent {K : Type} [LT K] [DecidableLT K]
     simp only [List.foldl_cons]
     exact ih (update eigh argsort s pop) h hn q
 
-/-- the identity (the default `cmatrix`) is symmetric and positive semi-definite, so `__init__` with
-positive `sigma` and admissible rates establishes `Pre` -/
+/-- `__init__` establishes `Pre`: positive `sigma`, admissible rates, and a covariance matrix that is either
+the default identity or a user-supplied symmetric positive semi-definite `cmatrix`. -/
 theorem init_pre (eigh : List (List ℝ) → List ℝ × List (List ℝ)) (argsort : List ℝ → List Nat)
-    (centroid : List ℝ) (sigma : ℝ) (o : Over ℝ) (hσ : 0 < sigma) (hcm : o.cmatrix = none)
+    (centroid : List ℝ) (sigma : ℝ) (o : Over ℝ) (hσ : 0 < sigma)
+    (hcm : ∀ M, o.cmatrix = some M →
+      (∀ a b : Fin centroid.length, mget M a.val b.val = mget M b.val a.val) ∧ PSD centroid.length M)
     (hr : RatesOk (init eigh argsort centroid sigma o).par) :
     Pre (init eigh argsort centroid sigma o) := by
   refine ⟨hσ, ?_, ?_, hr⟩
   · show ∀ a b : Fin centroid.length, mget (o.cmatrix.getD (identity centroid.length)) a.val b.val
         = mget (o.cmatrix.getD (identity centroid.length)) b.val a.val
     intro a b
-    rw [hcm, Option.getD_none, identity_mget, identity_mget]
-    simp only [eq_comm]
+    cases hM : o.cmatrix with
+    | none => rw [Option.getD_none, identity_mget, identity_mget]; simp only [eq_comm]
+    | some M => rw [Option.getD_some]; exact (hcm M hM).1 a b
   · show PSD centroid.length (o.cmatrix.getD (identity centroid.length))
-    rw [hcm, Option.getD_none]
-    exact identity_psd _
+    cases hM : o.cmatrix with
+    | none => rw [Option.getD_none]; exact identity_psd _
+    | some M => rw [Option.getD_some]; exact (hcm M hM).2
+
+/-- a user-supplied SPD `cmatrix` satisfying the hypothesis of `init_pre`: `diag(1, 4)` -/
+example : ∀ M, ({ cmatrix := some [[1, 0], [0, 4]] } : Over ℝ).cmatrix = some M →
+    (∀ a b : Fin 2, mget M a.val b.val = mget M b.val a.val) ∧ PSD 2 M := by
+  intro M hM
+  simp only [Option.some.injEq] at hM
+  subst hM
+  refine ⟨?_, ?_⟩
+  · intro a b; fin_cases a <;> fin_cases b <;> simp [mget, vget]
+  · intro v
+    simp only [Fin.sum_univ_two, mget, vget]
+    norm_num
+    nlinarith [mul_self_nonneg (v 0), mul_self_nonneg (v 1)]
 
 /-- the hypotheses of `history_consistent` are satisfiable: the example state, and numerics that return
 the (diagonal, already sorted) decomposition … of diagonal matrices; shown for the example matrix -/
@@ -523,7 +635,7 @@ example : Pre exState := by
     norm_num
     nlinarith [mul_self_nonneg (v 0), mul_self_nonneg (v 1)]
   · refine ⟨by norm_num [exState], by norm_num [exState], by norm_num [exState], by norm_num [exState],
-      by norm_num [exState], ?_⟩
+      by norm_num [exState], ?_, by norm_num [exState], by norm_num [exState], by norm_num [exState]⟩
     show ∀ i : Fin 2, 0 ≤ vget [(3 / 4 : ℝ), 1 / 4] i.val
     intro i; fin_cases i <;> norm_num [vget]
 
@@ -536,8 +648,14 @@ example : NumericsOk 1 (fun C => ([mget C 0 0], [[1]])) (fun _ => [0]) := by
   · intro k l; fin_cases k; fin_cases l; simp [mget, vget]
   · intro a b; fin_cases a; fin_cases b; simp [mget, vget]
 
+/-- **numericsOk_satisfiable.**  For every dimension there are numerics honouring the contract (Mathlib's
+spectral theorem for real symmetric matrices; `argsort` = the identity permutation), so the hypothesis of
+`history_consistent` is satisfiable for every `n`. -/
+theorem numericsOk_satisfiable (n : Nat) : NumericsOk n (eighSpectral n) (fun _ => List.range n) :=
+  ⟨fun C hC => eighSpectral_contract n C hC, fun _ => List.Perm.refl _⟩
+
 /-- **default_rates_ok.**  The documented default learning rates (any scheme, any `μ ≥ 1`, `N ≥ 1`) satisfy
-the sign conditions `RatesOk`. -/
+the conditions `RatesOk` (in particular `0 < cs < 2` and `damps > 0`). -/
 theorem default_rates_ok (dim lambda_ : Nat) (sch : Scheme) (mu : Option Nat) (hdim : 1 ≤ dim)
     (hmu : 1 ≤ (computeParams dim lambda_ ({ scheme := sch, mu := mu } : Over ℝ)).mu) :
     RatesOk (computeParams dim lambda_ ({ scheme := sch, mu := mu } : Over ℝ)) := by
@@ -560,12 +678,18 @@ theorem default_rates_ok (dim lambda_ : Nat) (sch : Scheme) (mu : Option Nat) (h
     have : p.mueff - 2 + 1 / p.mueff = (p.mueff - 1) ^ 2 / p.mueff := by field_simp; ring
     rw [this]; positivity
   have hraw : 0 ≤ 2 * (p.mueff - 2 + 1 / p.mueff) / (((dim : ℝ) + 2) ^ 2 + p.mueff) := by positivity
-  refine ⟨hc1pos, ?_, ?_, ?_, ?_, fun i => (hpos i).le⟩
+  have hcs0 : 0 < p.cs := by rw [hcs]; positivity
+  have hcs1 : p.cs < 2 := by
+    rw [hcs, div_lt_iff₀ (by linarith)]; linarith
+  refine ⟨hc1pos, ?_, ?_, ?_, ?_, fun i => (hpos i).le, hcs0, hcs1, ?_⟩
   · rw [hcmu]; exact le_min (by linarith) hraw
   · have : p.ccovmu ≤ 1 - p.ccov1 := by rw [hcmu]; exact min_le_left _ _
     linarith
   · rw [hcc]; positivity
   · rw [hcc, div_le_iff₀ (by linarith)]; linarith
+  · rw [hd]
+    have : 0 ≤ max 0 (√((p.mueff - 1) / ((dim : ℝ) + 1)) - 1) := le_max_left _ _
+    linarith
 
 example : 1 ≤ (computeParams 5 8 ({ scheme := .linear, mu := none } : Over ℝ)).mu := by
   show 1 ≤ 8 / 2
